@@ -725,7 +725,7 @@ class Executor:
         # struct aggregate with braces:  path { a: move _1, b: copy _2 }
         m = re.match(r"^([^{}]+?) \{ (.*) \}$", rhs) if not rhs.startswith("{") else None
         if m:
-            name = short_type(m.group(1))
+            name = self._enum_or_struct_name(m.group(1))
             fields, names = [], []
             for item in split_top(m.group(2)):
                 fm = re.match(r"^(\w+): (.*)$", item)
@@ -1037,6 +1037,10 @@ class Executor:
                         return None
         if not handled:
             outcome = self.default_call(st, cname, args, dest_ty, fn)
+        if type(outcome).__name__ in ("_Panic", "_PanicVal"):
+            # a modelled operation whose Rust counterpart panics on this path
+            self.paths.append(Path(st, None, "panic", "%s in %s" % (cname, fn.name)))
+            return None
         if ret_bb is None:
             # diverging call (panic, process::exit, ...)
             self.paths.append(Path(st, None, "diverge", cname))
@@ -1189,6 +1193,29 @@ class Executor:
             res = self.fresh(st, inner[0] if inner else "?", key)
             st.trace.append(Event(callee="<await>", args=[self.deep_key(st, fut)], fn=""))
             return Agg("Poll", "Ready", [res])
+        m = re.match(r"^(?:std::option::|core::option::)?Option::<.*>::(unwrap|expect|unwrap_unchecked)$", cname)
+        if m:
+            v = args[0]
+            if isinstance(v, Agg) and v.ty == "Option":
+                if v.variant == "Some":
+                    return v.fields[0]
+                return _PanicVal()
+            if isinstance(v, Opaque):
+                # the non-panicking continuation: the value is Some
+                d = self.discriminant(st, v)
+                st.pc.append(d.term == z3.BitVecVal(1, USIZE))
+                return LazyPayload(self, st, v, "Some")[0]
+        m = re.match(r"^(?:std::result::|core::result::)?Result::<.*>::(unwrap|expect)$", cname)
+        if m:
+            v = args[0]
+            if isinstance(v, Agg) and v.ty == "Result":
+                if v.variant == "Ok":
+                    return v.fields[0] if v.fields else Unit()
+                return _PanicVal()
+            if isinstance(v, Opaque):
+                d = self.discriminant(st, v)
+                st.pc.append(d.term == z3.BitVecVal(0, USIZE))
+                return LazyPayload(self, st, v, "Ok")[0]
         m = re.match(r"^(?:std::option::|core::option::)?Option::<.*>::(is_some|is_none)$", cname)
         if m:
             v = self.deref(st, args[0])
@@ -1247,6 +1274,11 @@ class Executor:
                         continue  # scalars behind &mut are havoced too
                     self.set_at(st, a.root, list(a.path), Opaque(ty, ("havoc", sc, st.count("havoc"), self.deep_key(st, old))))
         return res
+
+
+class _PanicVal(Val):
+    def key(self):
+        return "panic"
 
 
 class LazyPayload:
